@@ -559,7 +559,20 @@ func (w *ewWorld) envDaemon(k string) {
 	if n > 1 && w.r.Chance(30) {
 		u = w.r.Intn(n - 1)
 	}
-	ctx, cancel := context.WithTimeout(context.Background(), 10*time.Millisecond)
+	// The daemon looks at once and then retries every 5 s until its context ends; an acceptance is answered
+	// immediately, a refusal never (the goroutine just ends with the context).  How long the harness waits depends on
+	// what it would expect itself (so that a loaded machine cannot turn an acceptance into a refusal); what is
+	// recorded is what the daemon really answered.
+	w.mu.Lock()
+	rec0 := w.rawRec(k)
+	w.mu.Unlock()
+	expect := rec0 != nil && rec0.Status.Phase == networkv1beta1.ENIPhaseBind && rec0.DeletionTimestamp.IsZero() &&
+		rec0.Annotations[terwayTypes.PodUID] == ewUID(k, u) && len(rec0.Spec.Allocations) > 0
+	patience := 40 * time.Millisecond
+	if expect {
+		patience = 3 * time.Second
+	}
+	ctx, cancel := context.WithCancel(context.Background())
 	defer cancel()
 	ch, _ := eni.NewRemote(w.cl, nil).Allocate(ctx, &daemonTypes.CNI{PodName: k, PodNamespace: ewNS, PodUID: ewUID(k, u)}, &eni.RemoteIPRequest{})
 	ok := false
@@ -567,10 +580,11 @@ func (w *ewWorld) envDaemon(k string) {
 		select {
 		case resp := <-ch:
 			ok = resp != nil && resp.Err == nil && len(resp.NetworkConfigs) > 0
-		case <-time.After(40 * time.Millisecond):
-			// not ready: the retry loop was cut by the context and nothing is sent
+		case <-time.After(patience):
+			// not ready: nothing is sent before the context ends
 		}
 	}
+	cancel()
 	w.mu.Lock()
 	defer w.mu.Unlock()
 	if ok {
@@ -760,7 +774,10 @@ func (w *ewWorld) final() {
 			w.c.Violate("C10/converge/record-of-deleted-pod-remains",
 				fmt.Sprintf("pod %s is gone (or finished) and its record has no fixed address, yet the record is still there in phase %q after the reconcilers reached a fixed point", k, rec.Status.Phase), w.tail()...)
 		}
-		if pod != nil && !ewExited(pod) && pod.DeletionTimestamp.IsZero() && rec != nil && rec.Spec.HaveFixedIP() && ewFixedName(pod) &&
+		w.faultMu.Lock()
+		clean := !w.faulted[k] && !w.faulted["*"]
+		w.faultMu.Unlock()
+		if clean && pod != nil && !ewExited(pod) && pod.DeletionTimestamp.IsZero() && rec != nil && rec.Spec.HaveFixedIP() && ewFixedName(pod) &&
 			w.needsP(pod) && rec.DeletionTimestamp.IsZero() && rec.Status.Phase != networkv1beta1.ENIPhaseDeleting {
 			if rec.Status.Phase != networkv1beta1.ENIPhaseBind || rec.Annotations[terwayTypes.PodUID] != string(pod.UID) {
 				w.c.Violate("C11/rebind/fixed-record-not-rebound",
